@@ -557,7 +557,8 @@ def p_slice(I, *a):
 
 def p_set(I, it=()):
     items = list(I.iterate(it))
-    if has_sym(items):
+    if has_sym(items) or core.active():
+        # sets built by interpreted code may later receive symbolic members
         return SymSet(items)
     return set(items)
 
@@ -1412,7 +1413,7 @@ class Interp:
         els = self._elts(e.elts, env)
         if has_sym(els):
             return SymSet(els)
-        return set(els)
+        return set(els)  # displays of constants stay native (used for membership tests)
 
     def _elts(self, elts, env):
         out = []
@@ -1805,7 +1806,7 @@ class Interp:
 
     def e_SetComp(self, e, env):
         vals = self.e_ListComp(e, env)
-        if has_sym(vals):
+        if has_sym(vals) or core.active():
             return SymSet(vals)
         return set(vals)
 
